@@ -125,8 +125,11 @@ type xsim struct {
 	ids     map[string]int             // block id -> abstract id
 	blocks  map[int]*pb.InternalBlock  // abstract id -> pristine block
 	n       int
+	uniq    int
 	recover chan struct{}
 }
+
+func txid(tx *pb.Transaction) ([]byte, error) { return txhash.MakeTransactionID(tx) }
 
 func addrOf(name string) string {
 	if name == "$" {
